@@ -75,7 +75,8 @@ static void run_mtag(bool feature) {
             if (d >= D) {
                 sel[q][d] = select_all(r.ext[d]);
                 double x0 = r.ax[d].x[0], xl = r.ax[d].x[(size_t)r.ext[d] - 1];
-                pad_wrong = pad_wrong | (has_extent && match == RangeMatch::Exclusive) | !(x0 + (xl - x0) == xl);
+                // (unlike Tag retrieval, multi-tag retrieval does not switch to Inclusive when there are no extents)
+                pad_wrong = pad_wrong | (match == RangeMatch::Exclusive) | !(x0 + (xl - x0) == xl);
                 continue;
             }
             double p = pos[i * D + d], e = ext[i * D + d];
